@@ -52,6 +52,7 @@ Print Assumptions C17_exactly_once.
    (false for the old protocol: C17_old_handover_stuck) *)
 Theorem C17_never_stuck : forall l d es s j, 1 <= l ->
   steps (init l d) es = Some s -> j < length (jobs s) -> delivered s j = 0 ->
+  (forall dd, nth_error (disp s) dd <> Some (DFailed j)) ->    (* its dispatch did not panic on a refused thread *)
   exists es' s', steps s es' = Some s' /\ delivered s' j = 1.
 Proof. exact never_stuck. Qed.
 Print Assumptions C17_never_stuck.
@@ -100,6 +101,49 @@ Theorem C17_retire_then_run : forall l d es s dd p, 1 <= l ->
     completed s' = completed s ++ [(dd, j, p)] /\ wakes s' = wakes s ++ [(dd, j)].
 Proof. exact retire_then_run. Qed.
 Print Assumptions C17_retire_then_run.
+
+(* the OS refuses to create the thread exactly when the pool must grow
+   (ESpawnFail is an environment label of [step], so every theorem of this file
+   already quantifies over runs with such failures; C17_exactly_once then says
+   that no job is ever accepted-and-lost: a job is held by a thread, delivered,
+   or sits with a dispatcher whose dispatch call PANICKED).  The failed dispatch
+   gives the reserved slot back, changes nothing else, and the job has not run *)
+Theorem C17_spawn_failure_visible : forall l d es s dd s', 1 <= l ->
+  steps (init l d) es = Some s -> step s (ESpawnFail dd) = Some s' ->
+  exists j x,
+    nth_error (disp s) dd = Some (DSpawn j) /\ nth_error (disp s') dd = Some (DFailed j) /\
+    S (counter s') = counter s /\ counter s' = alive s' + reserved s' /\
+    work s' = work s /\ jobs s' = jobs s /\ completed s' = completed s /\
+    nth_error (jobs s') j = Some x /\ runs x = 0 /\ delivered s' j = 0 /\
+    sumf (hw j) (work s') = 0.
+Proof. exact spawn_failure_visible. Qed.
+Print Assumptions C17_spawn_failure_visible.
+
+(* ... that dispatch call never returns Ok afterwards (the dispatcher stays in
+   DFailed under every label), and the job is never run or delivered behind the
+   submitter's back *)
+Theorem C17_failed_dispatch_never_ok : forall s e s' dd j,
+  nth_error (disp s) dd = Some (DFailed j) -> step s e = Some s' ->
+  nth_error (disp s') dd = Some (DFailed j).
+Proof. exact failed_stays_failed. Qed.
+Print Assumptions C17_failed_dispatch_never_ok.
+
+Theorem C17_failed_never_runs : forall l d es s dd j x, 1 <= l ->
+  steps (init l d) es = Some s -> nth_error (disp s) dd = Some (DFailed j) ->
+  nth_error (jobs s) j = Some x ->
+  runs x = 0 /\ delivered s j = 0 /\ sumf (hw j) (work s) = 0.
+Proof. exact failed_never_runs. Qed.
+Print Assumptions C17_failed_never_runs.
+
+(* non-vacuity: limit 1, the first growth is refused; the slot is free again, the
+   second submitter's job is accepted, spawned and run *)
+Example C17_spawn_failure_example :
+  exists s, steps (init 1 2) [ECall 0 false; ETrySendFull 0; ECheckOk 0; ESpawnFail 0;
+                             ECall 1 false; ETrySendFull 1; ECheckOk 1; ESpawn 1; EStart 0; EEnd 0; EWake 0] = Some s /\
+            nth_error (disp s) 0 = Some (DFailed 0) /\ completed s = [(1, 1, false)] /\
+            counter s = 1 /\ alive s = 1.
+Proof. eexists. split; [vm_compute; reflexivity|]. vm_compute. auto. Qed.
+Print Assumptions C17_spawn_failure_example.
 
 (* result delivery wakes the submitter: whenever a result sits in a completed
    channel, the driver of ITS submitter has been woken for it, or the worker
